@@ -51,15 +51,28 @@ package momentum
 //@ ensures[C03] consumed(openings) == len(openings) && consumed(closings) == len(closings) && closed(result)
 //@ ensures[C04] forall kk :: 0 <= kk && kk < len(result) ==> hor(result, kk) <= max(hor(openings, kk + (q.IdlePeriod())), hor(closings, kk + (q.IdlePeriod())))
 
+// RSI = 100 - 100 / (1 + RS), RS = Wilder average of the gains / Wilder average of the losses (documented formula)
+//@ stream gainS(c stream)[j] = (c[j+1] - c[j] > 0 ? c[j+1] - c[j] : 0)
+//@ stream lossS(c stream)[j] = (c[j+1] - c[j] < 0 ? c[j+1] - c[j] : 0)
+//@ stream rsiS(c stream, P int)[k] = 100 - 100 * (1 / (1 + rmaS(gainS(c), P, k) / (0 - rmaS(lossS(c), P, k))))
+// the documented RSI lies in [0,100] wherever its denominator (the average loss) is not zero
+//@ lemma rsiS_range(c stream, P int, k int)
+//@ requires[C15] P >= 1 && k >= 0 && rmaS(lossS(c), P, k) < 0
+//@ ensures[C15] 0 <= rsiS(c, P)[k] && rsiS(c, P)[k] <= 100
+//@ use rma_nonneg(gainS(c), P, k)
 //@ func Rsi.Compute
 //@ requires r.Rma.Period >= 1 && consumed(closings) == 0
 //@ ensures[C02] len(result) == max(0, len(closings) - (r.IdlePeriod()))
 //@ ensures[C03] consumed(closings) == len(closings) && closed(result)
 //@ ensures[C04] forall kk :: 0 <= kk && kk < len(result) ==> hor(result, kk) <= hor(closings, kk + (r.IdlePeriod()))
-//@ guarantees[C01] "gain-loss" forall j :: 0 <= j && j < len(closings) - 1 ==> res(KeepPositives, 0)[j] == (closings[j+1] - closings[j] > 0 ? closings[j+1] - closings[j] : 0) && res(KeepNegatives, 0)[j] == (closings[j+1] - closings[j] < 0 ? closings[j+1] - closings[j] : 0)
-//@ guarantees[C01] "formula" forall k :: 0 <= k && k < len(result) ==> result[k] == 100 - 100 * powr(1 + rmaS(res(KeepPositives, 0), r.Rma.Period, k) / (0 - rmaS(res(KeepNegatives, 0), r.Rma.Period, k)), 0 - 1)
-//@ guarantees[C15] "range" forall k :: 0 <= k && k < len(result) && rmaS(res(KeepNegatives, 0), r.Rma.Period, k) < 0 ==> 0 <= result[k] && result[k] <= 100
-//@ use rma_nonneg(res(KeepPositives, 0), r.Rma.Period, _)
+//@ step[C01,C15] "gain-loss" forall j :: 0 <= j && j < len(closings) - 1 ==> res(KeepPositives, 0)[j] == gainS(closings)[j] && res(KeepNegatives, 0)[j] == lossS(closings)[j]
+//@ use rma_cong(res(KeepPositives, 0), gainS(closings), r.Rma.Period, _)
+//@ use rma_cong(res(KeepNegatives, 0), lossS(closings), r.Rma.Period, _)
+//@ step[C01,C15] "averages" forall k :: 0 <= k && k < len(result) ==> rmaS(res(KeepPositives, 0), r.Rma.Period, k) == rmaS(gainS(closings), r.Rma.Period, k) && rmaS(res(KeepNegatives, 0), r.Rma.Period, k) == rmaS(lossS(closings), r.Rma.Period, k)
+//@ step[C01,C15] "formula" forall k :: 0 <= k && k < len(result) ==> result[k] == rsiS(closings, r.Rma.Period)[k]
+//@ ensures[C01] "formula" forall k :: 0 <= k && k < len(result) ==> result[k] == rsiS(closings, r.Rma.Period)[k]
+//@ use rsiS_range(closings, r.Rma.Period, _)
+//@ ensures[C15] "range" forall k :: 0 <= k && k < len(result) && rmaS(lossS(closings), r.Rma.Period, k) < 0 ==> 0 <= result[k] && result[k] <= 100
 
 //@ func StochasticOscillator.Compute
 //@ requires s.Max.Period >= 1 && s.Min.Period == s.Max.Period && s.Sma.Period >= 1 && consumed(highs) == 0 && consumed(lows) == 0 && consumed(closings) == 0 && len(highs) == len(lows) && len(highs) == len(closings)
